@@ -169,11 +169,18 @@ type Ordering int
 const (
 	OrderLWW  Ordering = iota // default LastWriteWins
 	OrderHash                 // SortByEntryHash
+	// OrderFWW is FirstWriteWins, the reverse of the default. It does not put predecessors first, so it is not one
+	// of the orderings C03 & co speak about; it is a legal LogOptions.SortFn all the same and is used where a
+	// property does not depend on the ordering (C04).
+	OrderFWW
 )
 
 func (o Ordering) String() string {
-	if o == OrderHash {
+	switch o {
+	case OrderHash:
 		return "hash"
+	case OrderFWW:
+		return "fww"
 	}
 	return "lww"
 }
@@ -511,6 +518,9 @@ func (r *Registry) HasDiamond(s Set) bool {
 // clock time, then clock id bytes, then (hash ordering only) the hash string.
 // It returns 0 for LWW ties (the library's First tiebreak is not a total order there).
 func RefCompare(o Ordering, a, b *Info) int {
+	if o == OrderFWW {
+		return -RefCompare(OrderLWW, a, b)
+	}
 	if a.Time != b.Time {
 		if a.Time < b.Time {
 			return -1
@@ -603,8 +613,11 @@ func (r *Registry) RefSort(o Ordering, s Set) []string {
 // ---------------------------------------------------------------- helpers on library objects
 
 func SortFn(o Ordering) iface.EntrySortFn {
-	if o == OrderHash {
+	switch o {
+	case OrderHash:
 		return sortByEntryHash
+	case OrderFWW:
+		return sorting.FirstWriteWins
 	}
 	return nil // library default (LastWriteWins)
 }
